@@ -114,7 +114,7 @@ Theorem C02_quadratic_whole_spline_round_trips :
                  QF minw minh bx uw uh x = y /\ l = - QFlad minw minh bx uw uh x).
 Proof.
   intros minw minh bx uw uh H1 H2 H3 H4 H5 H6 H7 H8.
-  split; [intros x; apply quadratic_inverse_of_forward | intros y; apply quadratic_forward_of_inverse]; assumption.
+  split; [intros x; apply quadratic_inverse_of_forward | intros y; apply quadratic_forward_of_inverse]; try assumption; left; assumption.
 Qed.
 Print Assumptions C02_quadratic_whole_spline_round_trips.
 
